@@ -8,7 +8,7 @@ import numpy as np
 from hypothesis import strategies as st
 
 from vlib.runner import Sub, Violation, ok
-from vlib.util import rng_of, crandom, reldiff
+from vlib.util import fl, rng_of, crandom, reldiff
 
 PROPERTY_ID = "C17"
 RULE = ("EnergyResult with 1-3 uniform energy axes (2..14 points), per-axis smoother drawn from "
@@ -31,7 +31,7 @@ def _kb():
 
 axis_st = st.fixed_dictionaries(dict(
     NE=st.integers(2, 14),
-    E0=st.floats(-5, 5, allow_nan=False, width=32),
+    E0=fl(-5, 5),
     dE=st.sampled_from([0.01, 0.05, 0.1, 0.25, 1.0, 3.0]),
     kind=st.sampled_from(["void", "FD", "Gauss", "FD", "Gauss"]),
     m=st.one_of(st.integers(0, 6), st.integers(0, 30), st.integers(0, 160)),
@@ -127,8 +127,8 @@ def check_compose(case):
 law_st = st.fixed_dictionaries(dict(
     ax=axis_st, axis=st.integers(0, 2), other=st.lists(st.integers(1, 4), min_size=2, max_size=2),
     cplx=st.booleans(), rs=st.integers(0, 2 ** 32),
-    const=st.floats(-10, 10, allow_nan=False, width=32),
-    a=st.floats(-3, 3, allow_nan=False, width=32), b=st.floats(-3, 3, allow_nan=False, width=32),
+    const=fl(-10, 10),
+    a=fl(-3, 3), b=fl(-3, 3),
     void_mode=st.sampled_from(["smear0", "smear-neg", "oneE", "Enone", "smearNone"]),
 ))
 
